@@ -126,6 +126,54 @@ fn main() {
                 }
             }
         }
+        "mbt" => {
+            // spec -> code: replay behaviours generated by TLC from StunClient.tla (one JSON array of
+            // [st, res, evk] per line) and write the model's predictions next to what was observed
+            use rustun_verif_harness::clientdrv::{MsgSpec, Target, TimeSpec};
+            let file = arg(&args, "--sched", "sched.ndjson");
+            let cfgv: Value = serde_json::from_str(&arg(&args, "--cfg", "{}")).expect("cfg json");
+            let cfg = Cfg::from_json(&cfgv);
+            let mut pf = BufWriter::new(File::create(format!("{}/pred.ndjson", out)).unwrap());
+            let f = BufReader::new(File::open(&file).expect("sched file"));
+            let kind_of = |t: u64| -> &'static str { match t { 32802 => "software", 6 => "username", 36 => "priority", 8 => "mi", 28 => "sha", 32808 => "fp", _ => "data" } };
+            for (i, line) in f.lines().enumerate() {
+                let line = line.unwrap();
+                if line.trim().is_empty() { continue; }
+                let sched: Value = serde_json::from_str(&line).expect("json");
+                let Ok(mut d) = Driver::new(cfg.clone(), i as u64) else { continue };
+                let mut done = Vec::new();
+                let mut preds = Vec::new();
+                for h in sched.as_array().cloned().unwrap_or_default() {
+                    let st = &h["st"];
+                    let at = TimeSpec::Dt(st["dt"].as_u64().unwrap_or(0));
+                    let app: Vec<String> = st["app"].as_array().map(|a| a.iter().map(|t| kind_of(t.as_u64().unwrap_or(0)).to_string()).collect()).unwrap_or_default();
+                    let step = match st["a"].as_str().unwrap_or("") {
+                        "send" => Step::Send { at, method: 1, app, buf: 1024 },
+                        "indic" => Step::Indic { at, method: 1, app, buf: 1024 },
+                        "timeout" => Step::Timeout { at },
+                        _ => {
+                            let dd = &st["msg"]["d"];
+                            let id = st["id"].as_u64().unwrap_or(99) as usize;
+                            let target = if id == 99 { Target::Unknown } else { Target::Sent(id) };
+                            let class = steps::class_from(dd["cls"].as_str().unwrap_or("success"));
+                            let raw = if dd["ok"].as_bool().unwrap_or(true) { None } else { Some(vec![0x80u8, 1, 0, 0, 1, 2, 3]) };
+                            let fp = match dd["fp"].as_str().unwrap_or("absent") { "valid" => "valid", "invalid" => "bad", _ => "absent" };
+                            Step::Recv { at, msg: MsgSpec { target, class, method: None,
+                                code: if class == 3 { 420 } else { 0 },
+                                auth: format!("gen:{},{}", dd["mi"].as_str().unwrap_or("absent"), dd["sha"].as_str().unwrap_or("absent")),
+                                fp: fp.to_string(), lt: json!({}), raw, hostile: Value::Null } }
+                        }
+                    };
+                    d.step(&step);
+                    done.push(steps::step_to_json(&step));
+                    preds.push(json!({"res":h["res"],"evk":h["evk"]}));
+                }
+                writeln!(pf, "{}", json!({"tr":i,"pred":preds})).unwrap();
+                write_trace(&mut tf, &mut sf, i as u64, &cfg, i as u64, &done, &d, &mut nlines);
+                ntr += 1;
+            }
+            pf.flush().unwrap();
+        }
         "replay" => {
             let file = arg(&args, "--steps", "steps.ndjson");
             let f = BufReader::new(File::open(&file).expect("steps file"));
